@@ -35,3 +35,15 @@ package collections
 //@     invariant -1 <= rangeindex && rangeindex < len(data) && len(res) == len(data) && len(buf) == len(data) && base(buf) != base(res)
 //@     invariant fresh(buf) && fresh(res)
 //@     invariant forall j int :: 0 <= j && j <= rangeindex ==> isMatch(res[j], c.variable, data[j].key, data[j].key)
+
+// Add appends one (original key, value) entry to the list stored under the normalised key; every other key and
+// every earlier entry is untouched (view: View' = View[nk -> View[nk] ++ [(key, value)]]).
+//@ func (*Map).Add props C01,C03,C07
+//@   requires c.data != nil
+//@   modifies mapof(c.data), keyValue.key, keyValue.value
+//@   ensures has(c.data, normKey(c, key))
+//@   ensures grown: len(c.data[normKey(c, key)]) == ite(old(has(c.data, normKey(c, key))), old(len(c.data[normKey(c, key)])), 0) + 1
+//@   ensures last: c.data[normKey(c, key)][len(c.data[normKey(c, key)]) - 1].key == key && c.data[normKey(c, key)][len(c.data[normKey(c, key)]) - 1].value == value
+//@   ensures prefix: old(has(c.data, normKey(c, key))) ==> (forall j int :: 0 <= j && j < old(len(c.data[normKey(c, key)])) ==>
+//@       c.data[normKey(c, key)][j].key == old(c.data[normKey(c, key)][j].key) && c.data[normKey(c, key)][j].value == old(c.data[normKey(c, key)][j].value))
+//@   ensures others: forall k string :: k != normKey(c, key) ==> has(c.data, k) == old(has(c.data, k)) && c.data[k] == old(c.data[k])
